@@ -3,7 +3,7 @@
 package main
 
 // Engine "net" (C05): k REAL beacon.Handlers in one process, wired by an in-memory net.ProtocolClient with a
-// scripted fault layer (partition, per-link cut, hold/release = delay, stop, restart = new Handler on the same
+// scripted fault layer (partition, per-link cut = drop, slow link = delay, stop, restart = new Handler on the same
 // store + Catchup). Every node has its own clockwork.FakeClock; the harness advances all of them in lock-step
 // by one CatchupPeriod per `step` (k steps = one period). After every op the engine waits (bounded, polling)
 // for the goroutines to settle and prints the vector of stored heads and the up/partition state.
@@ -11,7 +11,7 @@ package main
 //	net <maxwait-ms> <quiet-ms>
 //	ops:  init <n> <thr> <scheme> <k> <bolt|mem>
 //	      step [e=h0,h1,…]          advance every clock by one CatchupPeriod (e= expected heads: only a wait hint)
-//	      stop <i> | restart <i> [e=…] | part <g0> … <g(n-1)> | link <i> <j> <ok|cut|hold> | release
+//	      stop <i> | restart <i> [e=…] | part <g0> … <g(n-1)> | link <i> <j> <ok|cut|slow>
 //	      dump                      per node: stored rounds, gap-freeness, validity, digest of every signature
 //	result line of every op but dump:  r=<round> h=<heads> up=<0/1…> g=<groups> lk=<non-ok links> ms=<wall> to=<0|1>
 
@@ -56,7 +56,9 @@ func init() { engines["net"] = netEngine }
 const (
 	linkOK   = 0
 	linkCut  = 1
-	linkHold = 2
+	linkSlow = 2
+
+	slowLinkDelay = 25 * time.Millisecond
 )
 
 type simNode struct {
@@ -69,11 +71,6 @@ type simNode struct {
 	up      bool
 	head    uint64 // last head read (kept while the node is down)
 	started int    // number of handlers created for this node
-}
-
-type heldPartial struct {
-	from, to int
-	p        *pb.PartialBeaconPacket
 }
 
 type simStream struct {
@@ -96,7 +93,6 @@ type netSim struct {
 	backend  string
 	link     [][]int
 	grp      []int
-	held     []heldPartial
 	streams  map[*simStream]bool
 	inflight int64
 	activity int64
@@ -121,9 +117,13 @@ type memClient struct {
 	from int
 }
 
+// reach: the effective state of the directed link from -> to: cut across partition groups, else what `link` set.
 func (s *netSim) reach(from, to int) int {
 	s.mu.Lock()
 	defer s.mu.Unlock()
+	if s.grp[from] != s.grp[to] {
+		return linkCut
+	}
 	return s.link[from][to]
 }
 
@@ -161,11 +161,11 @@ func (c *memClient) PartialBeacon(ctx context.Context, p net.Peer, in *pb.Partia
 	switch c.sim.reach(c.from, to) {
 	case linkCut:
 		return errors.New("sim: link cut")
-	case linkHold:
-		c.sim.mu.Lock()
-		c.sim.held = append(c.sim.held, heldPartial{c.from, to, proto.Clone(in).(*pb.PartialBeaconPacket)})
-		c.sim.mu.Unlock()
-		return nil
+	case linkSlow:
+		// a slow link: the packet arrives, late (real time, well inside the settle wait)
+		atomic.AddInt64(&c.sim.inflight, 1)
+		time.Sleep(slowLinkDelay)
+		atomic.AddInt64(&c.sim.inflight, -1)
 	}
 	return c.deliver(ctx, to, in)
 }
@@ -179,7 +179,7 @@ type memStream struct {
 
 func (m *memStream) Context() context.Context { return m.ctx }
 func (m *memStream) Send(b *pb.BeaconPacket) error {
-	if m.sim.reach(m.st.from, m.st.to) != linkOK || m.sim.reach(m.st.to, m.st.from) != linkOK {
+	if m.sim.reach(m.st.from, m.st.to) == linkCut || m.sim.reach(m.st.to, m.st.from) == linkCut {
 		return errors.New("sim: link cut")
 	}
 	select {
@@ -197,8 +197,8 @@ func (c *memClient) SyncChain(ctx context.Context, p net.Peer, in *pb.SyncReques
 		return nil, errors.New("sim: unknown peer")
 	}
 	atomic.AddInt64(&c.sim.activity, 1)
-	// a stream needs both directions (request there, beacons back); a held link cannot carry a stream
-	if c.sim.reach(c.from, to) != linkOK || c.sim.reach(to, c.from) != linkOK {
+	// a stream needs both directions (request there, beacons back)
+	if c.sim.reach(c.from, to) == linkCut || c.sim.reach(to, c.from) == linkCut {
 		return nil, errors.New("sim: link cut")
 	}
 	h := c.sim.handlerOf(to)
@@ -674,49 +674,22 @@ func netEngine(args []string, in *bufio.Scanner, out *bufio.Writer) {
 				for i := 0; i < s.n; i++ {
 					s.grp[i], _ = strconv.Atoi(f[1+i])
 				}
-				for i := 0; i < s.n; i++ {
-					for j := 0; j < s.n; j++ {
-						if s.grp[i] != s.grp[j] {
-							s.link[i][j] = linkCut
-						} else if s.link[i][j] == linkCut {
-							s.link[i][j] = linkOK
-						}
-					}
-				}
 				s.mu.Unlock()
-				s.cancelStreams(func(st *simStream) bool { return s.reach(st.from, st.to) != linkOK || s.reach(st.to, st.from) != linkOK })
+				s.cancelStreams(func(st *simStream) bool { return s.reach(st.from, st.to) == linkCut || s.reach(st.to, st.from) == linkCut })
 				to := s.settle(nil)
 				return s.snapshot(t0, to)
 			case "link":
 				i, _ := strconv.Atoi(f[1])
 				j, _ := strconv.Atoi(f[2])
-				v := map[string]int{"ok": linkOK, "cut": linkCut, "hold": linkHold}[f[3]]
-				s.mu.Lock()
-				if v == linkOK && s.grp[i] != s.grp[j] {
-					v = linkCut // "ok" restores the link to what the partition allows
+				v, okv := map[string]int{"ok": linkOK, "cut": linkCut, "slow": linkSlow}[f[3]]
+				if !okv {
+					return "bad-op"
 				}
-				s.link[i][j] = v
+				s.mu.Lock()
+				s.link[i][j] = v // the partition groups are applied on top of this (reach)
 				s.mu.Unlock()
-				s.cancelStreams(func(st *simStream) bool { return s.reach(st.from, st.to) != linkOK || s.reach(st.to, st.from) != linkOK })
+				s.cancelStreams(func(st *simStream) bool { return s.reach(st.from, st.to) == linkCut || s.reach(st.to, st.from) == linkCut })
 				to := s.settle(nil)
-				return s.snapshot(t0, to)
-			case "release":
-				s.mu.Lock()
-				held := s.held
-				s.held = nil
-				for i := range s.link {
-					for j := range s.link[i] {
-						if s.link[i][j] == linkHold {
-							s.link[i][j] = linkOK
-						}
-					}
-				}
-				s.mu.Unlock()
-				for _, hp := range held {
-					c := &memClient{sim: s, from: hp.from}
-					_ = c.deliver(context.Background(), hp.to, hp.p)
-				}
-				to := s.settle(parseExpect(f, s.n))
 				return s.snapshot(t0, to)
 			case "dump":
 				return s.dump()
